@@ -9,7 +9,7 @@ props = [a for a in sys.argv[1:] if not a.startswith("--")] or [f"C{i:02d}" for 
 m = srcmodel.Model()
 for p in props:
     rule = importlib.import_module(f"sa.rules.{p.lower()}")
-    ctx = report.Ctx(p, "quick", m); rule.run(ctx)
+    from sa import flow; flow.set_model(m); ctx = report.Ctx(p, "quick", m); rule.run(ctx)
     mods = sorted(ctx.consulted)
     tmp = tempfile.mkdtemp(prefix="verif_twin_")
     try:
@@ -20,6 +20,7 @@ for p in props:
             tree = ast.parse(mod.source); (selftest._rename_locals(tree, every=EVERY) if KIND == "rename-locals" else selftest.TWINS[KIND](tree))
             src_new = ast.unparse(ast.fix_missing_locations(tree)) + "\n"; compile(src_new, path, "exec"); open(path, "w").write(src_new)
         m2 = srcmodel.Model(tmp + "/src")
+        from sa import flow; flow.set_model(m2)
         ctx2 = report.Ctx(p, "quick", m2)
         try:
             rule.run(ctx2)
